@@ -23,10 +23,11 @@ class Record:
 
 
 class PolicyTap:
-    def __init__(self, policy, keep_logits=True):
+    def __init__(self, policy, keep_logits=True, on_strategy=None):
         self.policy = policy
         self.rec = Record()
         self.keep_logits = keep_logits
+        self.on_strategy = on_strategy  # callback(strategy, record): extra wrappers (e.g. beam search internals)
 
     def __enter__(self):
         import rl4co.models.common.constructive.base as base
@@ -67,8 +68,8 @@ class PolicyTap:
             s._select_best = select_best
             orig_pre = s.pre_decoder_hook
 
-            def pre_hook(td, env, action=None):
-                out = orig_pre(td, env, action)
+            def pre_hook(td, env, *a, **kw):
+                out = orig_pre(td, env, *a, **kw)
                 rec.hits["pre_hook"] += 1
                 if s.actions:
                     rec.start_actions = s.actions[0].clone()
@@ -76,6 +77,8 @@ class PolicyTap:
                 return out
 
             s.pre_decoder_hook = pre_hook
+            if self.on_strategy is not None:
+                self.on_strategy(s, rec)
             return s
 
         base.get_decoding_strategy = get_strategy
